@@ -33,7 +33,7 @@ TOL = 2e-5
 
 def gen_cases(seed, tier):
     rng = np.random.default_rng([seed, 5])
-    n = 320 if tier == "quick" else 3000
+    n = 320 if tier == "quick" else 10000
     depth = 2 if tier == "quick" else 3
     cases = []
     for i in range(n):
